@@ -190,6 +190,34 @@ def run(ctx):
                               (f"interpreter._actors[{key}]", "the restored child is not put back into the parent's actor map: stop() and sendTo cannot reach it")):
                 c.ob("R8", want in stores, fs, f"restored-child:{want.split('.')[-1][:12]}", f"'{want}' is re-established on restore" if want in stores else
                      f"the actor restore loop no longer assigns '{want}': {why}", l)
+    # ---- R9 resuming a restored asynchronous interpreter brings its consumer and its children back ---------------
+    from sa.util import canon_atom
+    ast_ = p.method("Interpreter", "start")
+    resume = [x for x in own_nodes(ast_.node) if isinstance(x, ast.If) and any(canon_atom(a, pol) in (("is", "None", "self._event_loop_task", True), ("is", "self._event_loop_task", "None", True))
+                                                                            for a, pol in __import__("sa.cfg", fromlist=["split_atoms"]).split_atoms(x.test, True))]
+    if c.expect("R9", "resume branch of Interpreter.start", len(resume), 1, ast_,
+                "Interpreter.start() no longer recognises a restored interpreter (live status, no consumer task): it is never resumed and processes no event"):
+        rb = resume[0]
+        tasks = [y for st_ in rb.body for y in ast.walk(st_) if isinstance(y, ast.Call) and norm(y.func) == "asyncio.create_task" and "_run_event_loop" in norm(y)]
+        c.ob("R9", bool(tasks), ast_, "resume-creates-consumer", "resuming attaches a consumer task" if tasks else
+             "the resume branch no longer creates the run-loop task: a restored interpreter queues every event and processes none", rb)
+        loops = [y for st_ in rb.body for y in ast.walk(st_) if isinstance(y, ast.For) and "_actors" in norm(y.iter)]
+        okc = False
+        for l in loops:
+            lv = norm(l.target)
+            for y in [z for st_ in l.body for z in ast.walk(st_) if isinstance(z, ast.Call) and isinstance(z.func, ast.Attribute) and z.func.attr == "start" and norm(z.func.value) == lv]:
+                par = __import__("sa.util", fromlist=["parents"]).parents(ast_).get(id(y))
+                if isinstance(par, ast.Await):
+                    okc = True
+                elif isinstance(par, ast.Assign) and isinstance(par.targets[0], ast.Name):
+                    var = par.targets[0].id
+                    for aw in [z for st_ in l.body for z in ast.walk(st_) if isinstance(z, ast.Await) and norm(z.value) == var]:
+                        mine = [canon_atom(a, pol) for a, pol in guards_at(ast_, aw) if var in norm(a)]
+                        if mine and all(t == ("truthy", f"inspect.isawaitable({var})", "", True) for t in mine):
+                            okc = True
+        c.ob("R9", okc, ast_, "resume-starts-children", "resuming starts (and waits for) every restored child actor" if okc else
+             "the resume branch no longer starts every restored child actor and waits for it: the restored hierarchy comes back with dead children "
+             "(events sent to them are queued and never processed)", rb)
     # ---- R5 ancestor closure on restore ----------------------------------------------------
     shared.snapshot_ancestor_closure(ctx, "R5")
 
